@@ -18,27 +18,36 @@ package ttlcache
 //@   requires c != nil && inv(c)
 //@   modifies nothing
 //@   at call Now#0 ghost now = unixNano(res0)
+//@   at every close assert [C15.get.chans] false
+//@   at every send assert [C15.get.chans] false
 //@   ensures [C15.get.hit] ok ==> (c.m.has[key] && v == c.m.hval[key] && now < c.m.hexp[key])
 //@   ensures [C15.get.miss] !ok ==> (!c.m.has[key] || now >= c.m.hexp[key])
 
-// Set: documented panic for ttl <= 0. The product ttl * time.Second must fit an int64 (ttl <= 9223372036 s,
-// about 292 years); beyond that the Duration wraps around (recorded precondition).
+// Set: documented panic for ttl <= 0. The Duration ttl * time.Second fits an int64 up to ttl = 9223372036 s (about 292
+// years): up to there the expiry is exact ([C15.set.expiry]). Beyond it the code is still well defined -- the int64
+// product wraps around -- and there is NO precondition excluding such inputs of this exported function: the entry then
+// expires EARLIER than asked (possibly at once), never later ([C15.set.never-later], the direction the property needs:
+// Get returns a value only if less than its TTL has elapsed). Every wrapped int64 value is below the true product.
 //@ func (*Cache).Set
 //@   tags C15 C07
 //@   ghost now int
 //@   requires c != nil && inv(c)
-//@   requires ttl <= 9223372036
 //@   panics when ttl <= 0
 //@   modifies c.m.has, c.m.hval, c.m.hexp
 //@   at call Now#0 ghost now = unixNano(res0)
+//@   at every close assert [C15.set.chans] false
+//@   at every send assert [C15.set.chans] false
 //@   ensures [C15.set.entry] c.m.has[key] && c.m.hval[key] == val
-//@   ensures [C15.set.expiry] c.m.hexp[key] == now + ((c.maxTTL > 0 && ttl > c.maxTTL) ? c.maxTTL : ttl) * 1000000000
+//@   ensures [C15.set.never-later] c.m.hexp[key] <= now + ((c.maxTTL > 0 && ttl > c.maxTTL) ? c.maxTTL : ttl) * 1000000000
+//@   ensures [C15.set.expiry] ((c.maxTTL > 0 && ttl > c.maxTTL) ? c.maxTTL : ttl) <= 9223372036 ==> c.m.hexp[key] == now + ((c.maxTTL > 0 && ttl > c.maxTTL) ? c.maxTTL : ttl) * 1000000000
 //@   ensures [C15.set.others] forall k string :: k != key ==> (c.m.has[k] == old(c.m.has[k]) && c.m.hval[k] == old(c.m.hval[k]) && c.m.hexp[k] == old(c.m.hexp[k]))
 
 //@ func (*Cache).Delete
 //@   tags C15 C07
 //@   requires c != nil && inv(c)
 //@   modifies c.m.has
+//@   at every close assert [C15.delete.chans] false
+//@   at every send assert [C15.delete.chans] false
 //@   ensures [C15.delete.key] !c.m.has[key]
 //@   ensures [C15.delete.others] forall k string :: k != key ==> c.m.has[k] == old(c.m.has[k])
 
@@ -46,9 +55,17 @@ package ttlcache
 //
 // The closures handed to ForEach are verified on their own. ForEach itself ("calls its argument for the
 // entries of the map") cannot be expressed in a libspec: the call havocs everything, and what it leaves behind
-// is stated as explicit assumptions (right after it: the map and the cache are untouched; before the bulk Del, about
-// the collected keys = its argument: for Cleanup every one was a key of the map whose entry had expired, which
-// is what Cleanup$1 checks before it appends; for Reset every key of the map was collected). Cleanup and Reset therefore have no modifies clause (unchecked frame).
+// is stated as explicit assumptions right after the call, each cut down to what the clauses below need: (1) ForEach
+// does nothing but run its callback, whose own effects are what the contracts of Cleanup$1 / Reset$1 say (so the cache
+// and its map are untouched); (2) what the callback calls left in the captured `keys`: for Cleanup every appended key
+// was a key of the map whose entry had expired, which is what Cleanup$1 checks before it appends; for Reset every key
+// of the map was collected. That `keys` is what reaches the bulk Del is proved. Cleanup and Reset therefore
+// have no modifies clause (unchecked frame); in its place [C15.cleanup.chans] / [C15.reset.chans] say that their bodies
+// contain no store to runningCh / stopCh, no close and no send (their callees Now, Len, Del have frames, the closures too).
+// The assumptions about `keys` paraphrase the verified contracts of the closures ([C15.cleanup.collect/skip/prefix],
+// [C15.reset.collect/prefix]) over the entries of the map; an obligation at the call (isfunc) ties the function value that
+// is handed to ForEach to that closure. Completeness of the enumeration (Reset) is assumed of haxmap and known to be
+// false after concurrent Set + bulk Del: known finding bounded:ttlcache-concurrent-cleanup (see haxmap_clock.spec).
 
 // Cleanup$1(k, v): appends k to the captured keys iff v.exp is before the captured now.
 //@ func (*Cache).Cleanup$1
@@ -64,14 +81,27 @@ package ttlcache
 //@   ghost tnow int
 //@   requires c != nil && inv(c)
 //@   at call Now#0 ghost tnow = unixNano(res0)
+// tnow is what the CLOCK reported (never the code's own variable); the closure handed to ForEach is Cleanup$1, and the
+// `now` it captures holds exactly that instant when the enumeration starts
+//@   at before call ForEach#0 assert [C15.cleanup.clock] unixNano(now) == tnow && isfunc(arg1, "(*Cache).Cleanup$1")
+// ASSUMED of ForEach, part 1 (it only runs its callback, and the callback -- Cleanup$1, frame: the captured `keys` and
+// one slot behind it -- writes nothing else): the cache object and the content of its map are as before the call.
 //@   at call ForEach#0 assume c.m == old(c.m) && c.clock == old(c.clock) && c.m.has == old(c.m.has) && c.m.hval == old(c.m.hval) && c.m.hexp == old(c.m.hexp)
-//@   at call ForEach#0 ghost tnow = unixNano(now)
+// ASSUMED of ForEach, part 2 (it runs the callback only on entries (k, v) of the map, v = the stored value): by
+// [C15.cleanup.collect/skip/prefix] every key appended during the call is a key of the map whose stored expiry is before
+// the captured `now` (== tnow by [C15.cleanup.clock]; Cleanup$1 does not write `now`). Nothing is assumed about WHICH
+// entries are visited: Cleanup is not claimed to remove all expired entries.
 //@   ghost klen0 int
 //@   at before call ForEach#0 ghost klen0 = len(keys)
-//@   at call ForEach#0 assume klen0 <= len(keys) && (forall j :: klen0 <= j && j < len(keys) ==> (c.m.has[keys[j]] && c.m.hexp[keys[j]] < tnow))
+//@   at call ForEach#0 assume forall j :: klen0 <= j && j < len(keys) ==> (c.m.has[keys[j]] && c.m.hexp[keys[j]] < tnow)
 //@   at before call Del#0 assert [C15.cleanup.list] forall j :: 0 <= j && j < len(arg1) ==> (c.m.has[arg1[j]] && c.m.hexp[arg1[j]] < tnow)
+//@   at every close assert [C15.cleanup.chans] false
+//@   at every send assert [C15.cleanup.chans] false
+//@   at every store runningCh assert [C15.cleanup.chans] false
+//@   at every store stopCh assert [C15.cleanup.chans] false
 //@   ensures inv(c)
 //@   ensures [C15.cleanup.onlyexpired] forall k string :: (old(c.m.has[k]) && !c.m.has[k]) ==> old(c.m.hexp[k]) < tnow
+//@   ensures [C15.cleanup.live-kept] forall k string :: (old(c.m.has[k]) && old(c.m.hexp[k]) > tnow) ==> c.m.has[k]
 //@   ensures [C15.cleanup.nonew] forall k string :: c.m.has[k] ==> old(c.m.has[k])
 //@   ensures [C15.cleanup.values] c.m.hval == old(c.m.hval) && c.m.hexp == old(c.m.hexp)
 
@@ -86,18 +116,58 @@ package ttlcache
 //@ func (*Cache).Reset
 //@   tags C15 C07
 //@   requires c != nil && inv(c)
-//@   at call ForEach#0 assume c.m == old(c.m) && c.clock == old(c.clock) && c.m.has == old(c.m.has) && c.m.hval == old(c.m.hval) && c.m.hexp == old(c.m.hexp)
-//@   at before call Del#0 assume forall k string :: c.m.has[k] ==> (exists j :: 0 <= j && j < len(arg1) && arg1[j] == k)
+//@   at before call ForEach#0 assert [C15.reset.closure] isfunc(arg1, "(*Cache).Reset$1")
+// ASSUMED of ForEach, part 1 (it only runs its callback, and the callback -- Reset$1, frame: the captured `keys` and one
+// slot behind it -- writes nothing else): the cache object still has its map and its clock.
+//@   at call ForEach#0 assume c.m == old(c.m) && c.clock == old(c.clock)
+// ASSUMED of ForEach, part 2 (COMPLETENESS: it runs the callback on every entry of the map; known to be false after
+// concurrent Set + bulk Del, known finding bounded:ttlcache-concurrent-cleanup): Reset$1 appends every key it is called
+// with ([C15.reset.collect/prefix]), so every key of the map is in the captured `keys` afterwards. That this list is
+// what reaches Del is proved, not assumed.
+//@   at call ForEach#0 assume forall k string :: c.m.has[k] ==> (exists j :: 0 <= j && j < len(keys) && keys[j] == k)
+//@   at every close assert [C15.reset.chans] false
+//@   at every send assert [C15.reset.chans] false
+//@   at every store runningCh assert [C15.reset.chans] false
+//@   at every store stopCh assert [C15.reset.chans] false
 //@   ensures inv(c)
 //@   ensures [C15.reset.empty] forall k string :: !c.m.has[k]
 
 // ---- life cycle ----
+//
+// "Stop returns only after the background cleaner has exited". What is PROVED, function by function:
+//  (a) [C15.start.once] startBackgroundCleanup requires runningCh == nil and leaves a fresh unbuffered channel there
+//      ([C15.start.chan]): it can run only once per cache (NewCache proves the precondition on the fresh object), so
+//      there is one cleaner per cache and the channel it closes is the one in the field; exactly one goroutine is
+//      spawned ([C15.start.cleaner]), it is the cleaner below (the go statement names it: obligation
+//      `pre:go startBackgroundCleanup$1`, its precondition runningCh != nil, proved by the spawner).
+//  (b) the cleaner closes exactly the runningCh it found at entry, only after it has received from stopCh
+//      ([C15.cleaner.close-last]), at most once, it does nothing after the close -- no Cleanup, no ticker call, no
+//      select ([C15.cleaner.idle-after-close]) -- and it never returns without having closed ([C15.cleaner.exit-closed]).
+//      It sends on no channel ([C15.cleaner.nosend]).
+//  (c) every Stop returns only after a receive on c.runningCh ([C15.stop.join]); Stop closes nothing but stopCh and
+//      sends nothing ([C15.stop.chans]). Get/Set/Delete have frames that exclude runningCh and stopCh; no function of the
+//      package other than startBackgroundCleanup stores to runningCh and none but the cleaner closes it
+//      ([C15.*.chans]: at-every-close / at-every-send clauses, which also hold vacuously where there is no such statement).
+// What is ARGUED (not an obligation): a receive on an unbuffered channel that nobody sends on completes only when the
+// channel is closed (Go memory model: the close happens before the receive returns), hence (a)+(b)+(c) give the
+// sentence; and the cleaner has "exited" once the close -- its last action -- has happened (the goroutine's return
+// itself is not observable). Cleanup and Reset have no checked frame (ForEach, above): for them "does not touch
+// runningCh / stopCh" is the statement-level check [C15.cleanup.chans] / [C15.reset.chans] plus the frames of their
+// callees, not a frame obligation. Code outside the package cannot reach the unexported fields.
 
 //@ func (*Cache).startBackgroundCleanup
 //@   tags C15 C07
 //@   opt go=ignore
 //@   requires c != nil && inv(c)
+//@   requires [C15.start.once] c.runningCh == nil
 //@   modifies c.runningCh
+//@   ghost nspawn int
+//@   at entry ghost nspawn = 0
+//@   at every go ghost nspawn = nspawn + 1
+//@   ensures [C15.start.cleaner] nspawn == 1
+//@   at every close assert [C15.start.chans] false
+//@   at every send assert [C15.start.chans] false
+//@   ensures [C15.start.chan] c.runningCh != nil && fresh(c.runningCh) && cap(c.runningCh) == 0
 
 //@ func NewCache
 //@   tags C15 C07
@@ -105,6 +175,7 @@ package ttlcache
 //@   ensures fresh(result) && inv(result) && result.maxTTL == opts.MaxTTL
 //@   ensures [C15.new.empty] forall k string :: !result.m.has[k]
 //@   ensures [C15.new.clock] opts.clock != nil ==> result.clock == opts.clock
+//@   ensures [C15.new.chans] result.runningCh != nil && result.stopCh != nil && result.runningCh != result.stopCh && result.stopped.v == 0
 
 // Stop closes stopCh exactly when this call is the one that flips `stopped`.
 //@ func (*Cache).Stop
@@ -113,9 +184,11 @@ package ttlcache
 //@   requires c != nil
 //@   modifies c.stopped.v
 //@   ghost njoin int
-//@   at before call CompareAndSwap#0 ghost nclose = 0
-//@   at before call CompareAndSwap#0 ghost njoin = 0
-//@   at close#0 ghost nclose = nclose + 1
+//@   at entry ghost nclose = 0
+//@   at entry ghost njoin = 0
+//@   at every before close assert [C15.stop.chans] arg0 == c.stopCh
+//@   at every send assert [C15.stop.chans] false
+//@   at every close ghost nclose = nclose + 1
 //@   at every recv ghost njoin = njoin + (arg0 == c.runningCh ? 1 : 0)
 //@   ensures [C15.stop.flag] c.stopped.v == 1 || (old(c.stopped.v) != 0 && c.stopped.v == old(c.stopped.v))
 //@   ensures [C15.stop.once] nclose == (old(c.stopped.v) == 0 ? 1 : 0)
@@ -123,14 +196,25 @@ package ttlcache
 // runningCh, which the cleaner goroutine closes as its very last action (startBackgroundCleanup$1 below)
 //@   ensures [C15.stop.join] njoin >= 1
 
-// The cleaner goroutine: it leaves its loop only when stopCh is readable (closed by Stop), and closing runningCh -- what
-// every Stop waits for -- is the last thing it does (deferred first, so run last), never earlier.
+// The cleaner goroutine: it leaves its loop only when it has received from stopCh (closed by Stop), and closing
+// runningCh -- what every Stop waits for -- is the last thing it does (deferred first, so run last), never earlier.
 //@ func (*Cache).startBackgroundCleanup$1
 //@   tags C15
 //@   opt go=detached
 //@   requires c != nil && c.clock != nil && inv(c)
+//@   requires c.runningCh != nil
 //@   ghost stopseen int
-//@   at call NewTicker#0 ghost stopseen = 0
-//@   at select#0 ghost stopseen = (res0 == 0 ? 1 : 0)
-//@   at every before close assert [C15.cleaner.close-last] stopseen == 1 && arg0 == old(c.runningCh)
-//@   loop 0 invariant stopseen == 0 && c != nil && inv(c)
+//@   ghost closed int
+//@   at entry ghost stopseen = 0
+//@   at entry ghost closed = 0
+//@   at every select ghost stopseen = ((res0 == 0 && !selsend && arg0 == c.stopCh) ? 1 : 0)
+//@   at every before close assert [C15.cleaner.close-last] stopseen == 1 && closed == 0 && arg0 == old(c.runningCh)
+//@   at every close ghost closed = 1
+//@   at every send assert [C15.cleaner.nosend] false
+//@   at every before call Cleanup assert [C15.cleaner.idle-after-close] closed == 0
+//@   at every before call NewTicker assert [C15.cleaner.idle-after-close] closed == 0
+//@   at every before call Stop assert [C15.cleaner.idle-after-close] closed == 0
+//@   at every before call C assert [C15.cleaner.idle-after-close] closed == 0
+//@   at every select assert [C15.cleaner.idle-after-close] closed == 0
+//@   at every return assert [C15.cleaner.exit-closed] closed == 1
+//@   loop 0 invariant stopseen == 0 && closed == 0 && c != nil && inv(c)
